@@ -9,7 +9,8 @@ they are called, iterated collections decomposed into their elements), not on on
   R2 traversal       accepted (orientation, traversal, emission) triple: dependent -> dependency edges,
                      DfsPostOrder, emitted by appending graph[next()] to the returned vector in visit order, the
                      vector being touched by nothing but that append; any other combination is an unrecognised shape
-                     (fail closed)
+                     (fail closed); a hand-written walk without any petgraph traversal object and without positive
+                     evidence of a wrong shape is a single UNPROVEN (R2 and R3 together), never accepted
   R3 shared state    the traversal object is created once, outside any loop / per-root closure, and is the receiver of
                      every next / move_to; move_to(index of the root found by id) per root
   R4 missing items   an unknown dependency / unknown root becomes ok_or(<error>) and is carried out of the function at
@@ -260,8 +261,20 @@ def run(ctx, rep):
             nx = core(pv[2][1]) if is_call(pv, '::index', '::node_weight') and len(pv[2]) == 2 and canon(peel(pv[2][0])) == canon(graph_p) else ('unknown',)
             shape_ok = shape_ok and not filtered and nx[0] == 'call' and classify(nx[1]) == 'TRAV_NEXT' and bool(nx[2]) and on_trav(nx[2][0]) and site_of(nx) == nsites[0]
     rev = SG.named(REORDERING)
-    rep.check(shape_ok and not rev and ret_ok, 'R2', 'traversal', w(gd), 'DfsPostOrder over dependent->dependency edges, appended in visit order, returned as is',
-              'unrecognised (orientation, traversal, emission) shape: traversal=%s nexts=%d appends=%d other_uses=%s reordering=%s' % (kind, len(nsites), len(app), sorted({c.name for c in other}), rev))
+    # no petgraph traversal object at all: the order comes from a hand-written walk.  R2 (and R3, which is stated on the
+    # traversal object) is an agreement rule with petgraph's DfsPostOrder; a hand-written walk is neither accepted nor
+    # refuted structurally.  Without positive evidence of a wrong shape (a reordering call, the returned vector handed
+    # to something other than an append, a result that is not that vector) this is one UNPROVEN, not a violation.
+    handwritten = not tsites and not nsites and not msites and not any(classify(n) in ('TRAV_NEW', 'TRAV_NEXT', 'TRAV_MOVE') for c in SG.calls for n in (c.res, c.decl, c.name))
+    if handwritten and ret_ok and not rev and not other and app:
+        nodes = bool(elems) and all(not fl and is_call(core(pv), '::index', '::node_weight') and len(core(pv)[2]) == 2 and canon(peel(core(pv)[2][0])) == canon(graph_p) for pv, fl in elems)
+        walkers = sorted({c.fn.path for c, _, _ in app if c.fn.path != gd.path} | {l.call.name for e in SG.of('PUSH') for l in e.chain if l.call.name})
+        rep.unproven('R2', 'traversal', w(gd), 'hand-written traversal (%s) instead of petgraph DfsPostOrder: post-order / shared visit state / restart per root (R2+R3) not decided; '
+                     'established: result vector only appended to (%d site), returned as is, not reordered, elements are graph nodes: %s'
+                     % (', '.join(x.split('::')[-1] for x in walkers) or 'inline loop', len(app), 'yes' if nodes else 'not recognised'))
+    else:
+        rep.check(shape_ok and not rev and ret_ok, 'R2', 'traversal', w(gd), 'DfsPostOrder over dependent->dependency edges, appended in visit order, returned as is',
+                  'unrecognised (orientation, traversal, emission) shape: traversal=%s nexts=%d appends=%d other_uses=%s reordering=%s' % (kind, len(nsites), len(app), sorted({c.name for c in other}), rev))
     if trav:
         t = trav[0]
         once = len(trav) == 1 and t.forall is None and all(c.fn.kind != 'Closure' and not c.fn.in_loop(c.bb) for c in levels(t))
